@@ -250,6 +250,49 @@ def scenario(sid, inst, rng):
                 ops = env.dispatcher.available_operations()
                 op = rng.choice(ops)
                 _, _, done, _, _ = env.step((op.job_id, rng.choice(op.machines)))
+    elif sid == 5:
+        # graphs assembled by hand from the public building blocks, in orders the builders never use (machine /
+        # job / global nodes BEFORE the operation nodes), then updated by a residual updater for a few dispatches
+        from job_shop_lib import graphs
+        from job_shop_lib.graphs import JobShopGraph
+        from job_shop_lib.graphs.graph_updaters import ResidualGraphUpdater
+        g = JobShopGraph(inst, add_operation_nodes=False)
+        steps = [graphs.add_machine_nodes, graphs.add_job_nodes, graphs.add_global_node]
+        rng.shuffle(steps)
+        for st in steps[:rng.randint(1, 3)]:
+            st(g)
+        g.add_operation_nodes()
+        if g.nodes_by_type[graphs.NodeType.MACHINE]:
+            graphs.add_operation_machine_edges(g)
+        if g.nodes_by_type[graphs.NodeType.JOB]:
+            graphs.add_operation_job_edges(g)
+        graphs.add_conjunctive_edges(g)
+        d = Dispatcher(inst)
+        ResidualGraphUpdater(d, g)
+        for _ in range(rng.randint(1, 4)):
+            ops = d.raw_ready_operations()
+            if not ops:
+                break
+            op = rng.choice(ops)
+            d.dispatch(op, rng.choice(op.machines))
+    elif sid == 6:
+        # observers attached in the MIDDLE of a history (their constructors catch up with the schedule)
+        from job_shop_lib.dispatching.feature_observers import FeatureObserverType, feature_observer_factory
+        d = Dispatcher(inst)
+        attached = False
+        while not d.schedule.is_complete():
+            ops = d.raw_ready_operations()
+            op = rng.choice(ops)
+            d.dispatch(op, rng.choice(op.machines))
+            if not attached and rng.random() < 0.4:
+                attached = True
+                UnscheduledOperationsObserver(d)
+                for t in rng.sample(list(FeatureObserverType), rng.randint(2, 5)):
+                    try:
+                        feature_observer_factory(t, dispatcher=d)
+                    except Exception:  # pylint: disable=broad-except
+                        pass
+        d.reset()
     else:
         raise ValueError(sid)
 
@@ -627,11 +670,11 @@ class C14(Check):
         return {"kind": "perm", "spec": spec, "seqs": seqs, "variant": variant}
 
     def gen_immut(self, rng):
-        sid = rng.randrange(5)
+        sid = rng.randrange(7)
         if sid == 2:
             spec = common.gen_instance(rng, max_jobs=3, max_machines=3, max_ops=3, flexible=False, zero=False)
         else:
-            spec = gen_spec(rng, corners=False, flexible=(None if sid in (0, 1) else False))
+            spec = gen_spec(rng, corners=False, flexible=(None if sid in (0, 1, 5, 6) else False))
         self.note_spec(spec)
         self.note("immut_scenario_%d" % sid)
         return {"kind": "immut", "scenario": sid, "spec": spec, "seed": rng.randrange(10 ** 9),
